@@ -81,11 +81,12 @@ func (c *Client) GetPeers(amount uint8) ([]PeerAddress, error) {
 	if err := c.SendMessage(msg); err != nil {
 		return nil, err
 	}
-	peers, ok := <-c.sharePeersChan
-	if !ok {
+	select {
+	case peers := <-c.sharePeersChan:
+		return peers, nil
+	case <-c.DoneChan():
 		return nil, protocol.ErrProtocolShuttingDown
 	}
-	return peers, nil
 }
 
 func (c *Client) messageHandler(msg protocol.Message) error {
